@@ -173,6 +173,21 @@ def register(ctx, report, facts, config, rule="C17.REGISTER"):
                     n += 1
                     if bd.key != b.key and not (bd.key in reg_cone and not bd.api):
                         report.ob(rule, "table-mutated/%s/%s" % (bd.qname, cf[-1][1]), False, "MetaTable.%s is changed by `%s` in %s" % (cf[-1][1], c.name, bd.qname), site=bd.loc(bb), config=config)
+        # an exclusive borrow of a table handed to a helper (`helper(&mut self.indices, &mut self.tys, ..)`) is a way to change it
+        for bi, blk in enumerate(bd.blocks):
+            if blk["cleanup"]:
+                continue
+            for st in blk["stmts"]:
+                if st["k"] != "assign" or st["rv"].get("k") not in ("ref", "rawptr") or not str(st["rv"].get("bk", "")).lower().startswith("mut"):
+                    continue
+                pp = st["rv"]["place"]["p"]
+                if pp and pp[-1]["k"] == "field" and pp[-1].get("adt") == MT and pp[-1].get("name") in (vt, "tys", "indices"):
+                    # two-phase borrows for a method call on the field are the calls counted above; a plain `&mut self.f` is not
+                    if st.get("span", {}).get("exp"):
+                        continue
+                    n += 1
+                    if bd.key != b.key and not (bd.key in reg_cone and not bd.api):
+                        report.ob(rule, "table-mutated/%s/%s" % (bd.qname, pp[-1]["name"]), False, "MetaTable.%s is borrowed exclusively in %s" % (pp[-1]["name"], bd.qname), site=bd.loc(bi), config=config)
     report.floor(rule, "mutating accesses to the three tables", n, 3, config=config)   # at least: an index enters the map, an entry each is appended to the vtable table and to tys
 
 
